@@ -92,3 +92,16 @@ Theorem C03_rename_to_refuted_before_fix :
                 /\ snd (shown fb) = Some (s "a") /\ fst (shown fa) = None.
 Proof. exact rename_refuted_before_fix. Qed.
 Print Assumptions C03_rename_to_refuted_before_fix.
+
+(* a virtual method with a block of its own (Class::slot, keyed by the class structure) is documented by it; without one it
+   carries exactly what its invoker's block says - version, deprecation, stability, documentation, attributes - and
+   without invoker nothing at all *)
+Theorem C03_virtual_method_blocks : forall blocks st v,
+  (forall inv b, blocks_lookup blocks (block_key EVFunc st v) None = Some b -> vfunc_meta blocks st v inv = meta_of SFunction (Some b))
+  /\ (forall sym, blocks_lookup blocks (block_key EVFunc st v) None = None ->
+        vfunc_meta blocks st v (Some sym) = element_meta blocks EFunction SFunction [] sym)
+  /\ (blocks_lookup blocks (block_key EVFunc st v) None = None -> vfunc_meta blocks st v None = no_meta).
+Proof.
+  intros blocks st v. split; [intros inv b; apply vfunc_own_block|]. split; [intros sym; apply vfunc_inherits|apply vfunc_bare].
+Qed.
+Print Assumptions C03_virtual_method_blocks.
